@@ -83,15 +83,15 @@ func loadFindings() []finding {
 }
 
 type childResult struct {
-	u      unit
-	shard  int
-	shards int
-	part   *common.Part
-	crash  *common.Violation
-	harness string // non-empty: harness bug description
+	u        unit
+	shard    int
+	shards   int
+	part     *common.Part
+	crash    *common.Violation
+	harness  string // non-empty: harness bug description
 	timedOut bool
-	races  []common.Violation
-	log    string
+	races    []common.Violation
+	log      string
 }
 
 func main() {
